@@ -104,7 +104,7 @@ def sparse_case(case):
         names = ["W1_", "W2_", "W_skip_", "b1_", "b2_"] if hasattr(model, "W_skip_") else ["W_", "b_"]
         now = dict(zip(names, model._get_weights()))
         before = dict(zip(names, snap))
-        grp = model.groups_ if model.groups_ is not None else [[i] for i in range(D)]
+        grp = [[i] for i in range(D)] if declared is None else declared + [[i] for i in range(D) if not any(i in g_ for g_ in declared)]
         if not hasattr(model, "W_skip_"):
             for g in grp:
                 z, must_zero = pref.group_lasso_row(before["W_"][g].reshape(-1), thr)
